@@ -10,7 +10,11 @@ IsCirc == Rec.op = "circuit" /\ ~Has("exc")
 \* the scenario itself is well-formed (forward and inverse maps really are inverse)
 ScenarioOK == IsCirc => ItemsConsistent(Prog)
 \* C09: any legal packing is accepted, not just the slide-back one
-LayoutOK == (IsCirc /\ Has("layout")) => LayoutLegal(Rec.layout, Prog)
+\* (also for the measured programs of C14: records "traj")
+IsProgRec == Rec.op \in {"circuit", "traj"} /\ ~Has("exc") /\ Has("prog")
+Variant == IF Has("variant") THEN Rec.variant ELSE "orig"
+Cls == IF Has("cls") THEN Rec.cls ELSE "Circuit"
+LayoutOK == (IsProgRec /\ Has("layout")) => LayoutLegal(Rec.layout, Prog)
 \* C09: forward = the gates applied one at a time in the order they were added
 ForwardOK == IsCirc =>
     \A p \in 1..Len(Rec.probes) : LET pr == Rec.probes[p] IN
@@ -43,6 +47,28 @@ RoundTripOK == IsCirc =>
         /\ ("back" \in DOMAIN pr) => pr.back = pr.ins          \* backward(forward(x)) = x
         /\ ("forth" \in DOMAIN pr) => pr.forth = pr.ins        \* forward(backward(x)) = x
 NoCrashK == ~Has("exc")
+
+\* ---- beyond the properties (model drift, never a verdict): the EXACT packing and the printed form of a circuit.
+\* C09 accepts any legal packing (LayoutOK); here the recorded layout is compared with the transcribed slide-back
+\* packing of Circuit.tla (TakeGate / Slide / TakeMz folded over the program in the order the code takes the gates).
+\* (PackProg / ComposePack: Circuit.tla)
+ModelLayers == IF Variant = "composed" THEN ComposePack(Prog, Rec.h) ELSE PackProg(Prog)
+Drift_Packing == (IsProgRec /\ Has("layout") /\ Variant \in {"orig", "copy", "composed"}) =>
+    Rec.layout = NonEmpty(ModelLayers)
+\* printing: "CliffordCircuit(" then one line per layer, LAST layer first, each "|[q,..][q,..]|" with the qubits as the
+\* gate was declared (0-based) or "|Mz[q,..]|"; the always-present first layer prints "||" while it is empty; class
+\* Circuit adds a line " Unitary:True/False"
+RECURSIVE JoinS(_, _, _)
+JoinS(seq, sep, j) == IF j = 0 THEN "" ELSE IF j = 1 THEN seq[1] ELSE JoinS(seq, sep, j - 1) \o sep \o seq[j]
+Decl(i) == IF Rec.rev[i] = 1 THEN [a \in 1..Len(Prog[i].qs) |-> Prog[i].qs[Len(Prog[i].qs) + 1 - a]] ELSE Prog[i].qs
+GateStr(i) == LET d == Decl(i) IN "[" \o JoinS([a \in 1..Len(d) |-> ToString(d[a] - 1)], ",", Len(d)) \o "]"
+LayerStr(lay) == IF Len(lay) = 1 /\ Prog[lay[1]].k = "mz" THEN "|Mz" \o GateStr(lay[1]) \o "|"
+                 ELSE "|" \o JoinS([b \in 1..Len(lay) |-> GateStr(lay[b])], "", Len(lay)) \o "|"
+Drift_CircuitRepr == (IsProgRec /\ Has("repr") /\ Variant \in {"orig", "copy", "composed"}) =>
+    LET L == ModelLayers  k == Len(L)
+        body == [j \in 1..k |-> "  " \o LayerStr(L[k + 1 - j]) \o (IF j = k THEN ")" ELSE "")]
+        unit == IF \E i \in 1..Len(Prog) : Prog[i].k = "mz" THEN " Unitary:False" ELSE " Unitary:True"
+    IN Rec.repr = <<"CliffordCircuit(">> \o body \o (IF Cls = "Circuit" THEN <<unit>> ELSE <<>>)
 
 \* ---- C14: trajectories with measurement layers (Circuit class)
 \* rec.outs: recorded outcomes (+1/-1) in order; rec.l2p; state before / after
